@@ -915,6 +915,36 @@ func genC17(g *Gen) {
 			g.Case("shard", J{"keys": strsJ(keys), "maxSize": ms})
 		}
 	}
+	// a key P (1..15 bytes) followed by 8..20 keys that all continue it with a NUL byte (P\x00, P\x00\x00, P\x00a,
+	// P\x00\x01\x00 ...), alone and between other keys: the common prefix of such a shard is P itself, and P padded
+	// with zero bytes looks the same as its continuations to word-wise comparisons
+	for c := 0; c < g.N(60, 2000); c++ {
+		p := string(bsString(r, 1+r.Intn(15)))
+		set := map[string]bool{p: true}
+		for i, n := 0, 8+r.Intn(13); i < n; i++ {
+			k := p + "\x00"
+			for j := r.Intn(4); j > 0; j-- {
+				k += string([]byte{[]byte{0, 0, 1, 'a', 0xff}[r.Intn(5)]})
+			}
+			set[k] = true
+		}
+		if c%3 == 0 { // other keys before and after
+			set[string(bsString(r, 1))] = true
+			set[p[:len(p)-1]+string([]byte{p[len(p)-1] + 1})] = true
+		}
+		var keys []string
+		for k := range set {
+			keys = append(keys, k)
+		}
+		sort.Strings(keys)
+		n := len(keys)
+		for _, ms := range []int{n, n + 1, 100, n - 1, 9, 3} {
+			if ms >= 1 && r.Intn(2) == 0 {
+				g.Case("shard", J{"keys": strsJ(keys), "maxSize": ms})
+			}
+		}
+		g.Case("shard", J{"keys": strsJ(keys), "maxSize": n})
+	}
 	// all keys differing in the first byte; single key
 	for c := 0; c < g.N(40, 1000); c++ {
 		var keys []string
